@@ -1,5 +1,5 @@
 SPECIFICATION TraceSpec
 CONSTANTS Checks = {"kill", "yank"}
-          MaxRepeat = 12
+          MaxRepeat = 99
 POSTCONDITION Accepted
 CHECK_DEADLOCK FALSE
